@@ -1520,11 +1520,38 @@ class IsNa(Elemwise):
     operation = M.isna
 
 
+def _mask_projection(expr, parent, dependents):
+    """Projection push-down for where / mask: DataFrame-shaped conditions and
+    replacement values are narrowed together with the frame."""
+    others = [
+        op for op in expr.operands[1:] if isinstance(op, Expr) and op.ndim == 2
+    ]
+    if expr.frame.ndim < 2 or not others:
+        return plain_column_projection(expr, parent, dependents)
+    columns = _convert_to_list(determine_column_projection(expr, parent, dependents))
+    columns = [col for col in expr.frame.columns if col in columns]
+    if columns == expr.frame.columns:
+        return
+    if any(not set(columns).issubset(op.columns) for op in others):
+        return
+    operands = [
+        op[columns] if isinstance(op, Expr) and op.ndim == 2 else op
+        for op in expr.operands[1:]
+    ]
+    return type(parent)(
+        type(expr)(expr.frame[columns], *operands), parent.operand("columns")
+    )
+
+
 class Mask(Elemwise):
     _projection_passthrough = True
     _parameters = ["frame", "cond", "other"]
     _defaults = {"other": np.nan}
     operation = M.mask
+
+    def _simplify_up(self, parent, dependents):
+        if isinstance(parent, Projection):
+            return _mask_projection(self, parent, dependents)
 
 
 class Round(Elemwise):
@@ -1544,6 +1571,10 @@ class Where(Elemwise):
     _parameters = ["frame", "cond", "other"]
     _defaults = {"other": np.nan}
     operation = M.where
+
+    def _simplify_up(self, parent, dependents):
+        if isinstance(parent, Projection):
+            return _mask_projection(self, parent, dependents)
 
 
 def _check_divisions(df, i, division_min, division_max, last):
